@@ -62,6 +62,34 @@ pub unsafe fn reused<D: Digest + digest::FixedOutput + digest::Reset>(msg: *cons
     put(out3, &Digest::finalize(k));
 }
 
+/// C18: independent instances used interleaved on one thread. out1 = X(m1) (fed in two pieces around the other instances' calls),
+/// out2[0..] = Y(m2) via an instance created while X is mid-stream, out2[256..] = Y(m2) via a third instance created even later
+#[inline(always)]
+pub unsafe fn interleaved<X: Digest, Y: Digest>(m1: *const u8, l1: usize, c: usize, m2: *const u8, l2: usize, out1: *mut u8, out2: *mut u8) {
+    let mut a = X::new();
+    a.update(sl(m1, c));
+    let mut b = Y::new();
+    b.update(sl(m2, l2));
+    a.update(sl(m1.add(c), l1 - c));
+    let mut d = Y::new();
+    put(out2, &b.finalize());
+    d.update(sl(m2, l2));
+    put(out1, &a.finalize());
+    put(out2.add(256), &d.finalize());
+}
+macro_rules! pair_entries {
+    ($modname:ident, $name:ident, $x:ty, $y:ty) => {
+        pub mod $modname {
+            use super::*;
+            entries! {
+                fn $name(m1: *const u8, l1: usize, c: usize, m2: *const u8, l2: usize, out1: *mut [u8; 512], out2: *mut [u8; 512]) {
+                    interleaved::<$x, $y>(m1, l1, c, m2, l2, out1 as *mut u8, out2 as *mut u8)
+                }
+            }
+        }
+    };
+}
+
 macro_rules! hash_entries {
     ($modname:ident, $t:ty, $one:ident, $split:ident, $clone:ident, $reuse:ident) => {
         pub mod $modname {
@@ -147,6 +175,11 @@ use digest::generic_array::typenum::{Sum, U16384, U32768, U8192};
 skein_long!(sl256, h_skein256_8225, Skein256<Sum<U8192, U33>>, 8256);
 skein_long!(sl512, h_skein512_16449, Skein512<Sum<U16384, U65>>, 16512);
 skein_long!(sl1024, h_skein1024_32897, Skein1024<Sum<U32768, U129>>, 33024);
+pair_entries!(pb1, h_pair_blake256_blake224, Blake256, Blake224);
+pair_entries!(pb2, h_pair_blake224_blake256, Blake224, Blake256);
+pair_entries!(pb3, h_pair_blake512_blake384, Blake512, Blake384);
+pair_entries!(ps1, h_pair_skein512_64_skein512_32, Skein512<U64>, Skein512<U32>);
+pair_entries!(ps2, h_pair_skein256_32_skein256_32, Skein256<U32>, Skein256<U32>);
 hash_entries!(s256_32, Skein256<U32>, h_skein256_32, h_skein256_32_split, h_skein256_32_clone, h_skein256_32_reuse);
 hash_entries!(s256_64, Skein256<U64>, h_skein256_64, h_skein256_64_split, h_skein256_64_clone, h_skein256_64_reuse);
 hash_entries!(s256_7, Skein256<U7>, h_skein256_7, h_skein256_7_split, h_skein256_7_clone, h_skein256_7_reuse);
@@ -171,6 +204,12 @@ pub mod x86 {
     use super::*;
     use groestl_aesni::{Groestl224, Groestl256, Groestl384, Groestl512};
     use jh_x86_64::{Jh224, Jh256, Jh384, Jh512};
+    pair_entries!(pg1, h_pair_groestl256_groestl224, Groestl256, Groestl224);
+    pair_entries!(pg2, h_pair_groestl224_groestl256, Groestl224, Groestl256);
+    pair_entries!(pg3, h_pair_groestl512_groestl384, Groestl512, Groestl384);
+    pair_entries!(pg4, h_pair_groestl384_groestl512, Groestl384, Groestl512);
+    pair_entries!(pj1, h_pair_jh256_jh224, Jh256, Jh224);
+    pair_entries!(pj2, h_pair_jh384_jh512, Jh384, Jh512);
     hash_entries!(g224, Groestl224, h_groestl224, h_groestl224_split, h_groestl224_clone, h_groestl224_reuse);
     hash_entries!(g256, Groestl256, h_groestl256, h_groestl256_split, h_groestl256_clone, h_groestl256_reuse);
     hash_entries!(g384, Groestl384, h_groestl384, h_groestl384_split, h_groestl384_clone, h_groestl384_reuse);
@@ -281,6 +320,8 @@ pub mod x86 {
     pub fn dispatch0(name: &str, args: &[String]) -> Option<Vec<String>> {
         g224::dispatch(name, args).or_else(|| g256::dispatch(name, args)).or_else(|| g384::dispatch(name, args)).or_else(|| g512::dispatch(name, args))
             .or_else(|| j224::dispatch(name, args)).or_else(|| j256::dispatch(name, args)).or_else(|| j384::dispatch(name, args)).or_else(|| j512::dispatch(name, args))
+            .or_else(|| pg1::dispatch(name, args)).or_else(|| pg2::dispatch(name, args)).or_else(|| pg3::dispatch(name, args)).or_else(|| pg4::dispatch(name, args))
+            .or_else(|| pj1::dispatch(name, args)).or_else(|| pj2::dispatch(name, args))
     }
 }
 
@@ -294,6 +335,8 @@ pub fn dispatch(name: &str, args: &[String]) -> Option<Vec<String>> {
         .or_else(|| s1024_31::dispatch(name, args)).or_else(|| s1024_200::dispatch(name, args)).or_else(|| s1024_257::dispatch(name, args))
         .or_else(|| bs224::dispatch(name, args)).or_else(|| bs256::dispatch(name, args)).or_else(|| bs384::dispatch(name, args)).or_else(|| bs512::dispatch(name, args))
         .or_else(|| ss256::dispatch(name, args)).or_else(|| ss512::dispatch(name, args)).or_else(|| ss1024::dispatch(name, args))
+        .or_else(|| pb1::dispatch(name, args)).or_else(|| pb2::dispatch(name, args)).or_else(|| pb3::dispatch(name, args))
+        .or_else(|| ps1::dispatch(name, args)).or_else(|| ps2::dispatch(name, args))
         .or_else(|| sl256::dispatch(name, args)).or_else(|| sl512::dispatch(name, args)).or_else(|| sl1024::dispatch(name, args));
     #[cfg(feature = "x86hashes")]
     let r = r.or_else(|| x86::dispatch(name, args));
